@@ -90,8 +90,9 @@ ThoroughProfiles == QuickProfiles \cup {
 
 (* ---- small spaces: liveness, deliberately broken variants, AArch64 ------------------------ *)
 SmallProfiles == {
-  P(2, Canon \cup {ANDHI}, One, Vals5, S3, KObj, Z7),
-  P(3, {F1AND, USED}, One, Vals3, S3, KObj, Z3)
+  P(2, Canon \cup {ANDHI} \cup Legacy, One, Vals4, SNoexec, KObj, ZNone),
+  P(2, {F1AND}, One, Vals2, S3, KObj, Z7),
+  P(3, {F1AND, USED}, One, Vals2, {"noexec", "exec"}, KObj, Z3)
 }
 A64Profiles == { P(3, A64, One, Vals5, SNoexec, KObj, ZNone) }
 =============================================================================
